@@ -1,4 +1,33 @@
 from _common import *
+_f_all = ['hash_key', 'cmi_hash_find_index', 'hash_find_slot', 'hash_rehash', 'heap_up', 'heap_down', 'hashheap_grow', 'cmi_hashheap_initialize',
+          'cmi_hashheap_clear', 'cmi_hashheap_reset', 'cmi_hashheap_enqueue', 'cmi_hashheap_dequeue', 'cmi_hashheap_remove', 'cmi_hashheap_item',
+          'cmi_hashheap_dkey', 'cmi_hashheap_ikey', 'cmi_hashheap_reprioritize', 'item_match', 'cmi_hashheap_pattern_find/_count/_cancel',
+          'cmi_hashheap_count/_is_empty/_peek_*/_is_enqueued (header inlines)']
+_stubs = ['hash_key replaced by an uninterpreted function of (key, exponent) masked to the map size (range fact proved for the real one in C02.L0)',
+          'cmi_aligned_alloc/_free, cmi_pagesize: fresh page-multiple allocation']
+def _op(name, entry, define, exp, tier, backend='sat', timeout=600, fn=None, extra=(), cmin=None, canaries=1, unwind=None, more_replace=()):
+    cap = 1 << exp
+    defs = [define, 'CMV_EXP=%d' % exp] + list(extra) + (['CMV_COUNT_MIN=%d' % cmin] if cmin is not None else [])
+    return Group(id='C02.L3.%s.cap%d' % (name, cap), prop='C02', harness='hashheap.c', entry=entry, defines=defs,
+                 level='bounded-shape', bound='arbitrary well-formed pre-state with capacity %d (hash map %d slots), one doubling; inductive in the history' % (cap, 2 * cap),
+                 backend=backend, timeout=timeout, tier=tier, canaries=canaries, unwind=unwind or (2 * cap + 3),
+                 replace_calls=[('hash_key', 'cmv_hash_abs')] + list(more_replace), functions=fn or _f_all, stubs=_stubs, also=['C01', 'C10'], replay=replays.hashheap_replay,
+                 assumes=['keys supplied by callers are not already enqueued (documented precondition)', '2^64 automatic keys are never issued',
+                          'the configured comparison is a strict weak order (proved for the five real ones in C02.L4)'])
 GROUPS = [
     order_group('C02', 'C02.L4.default_order', 'ORDER_DEFAULT', 'default_order_check', 'src/cmi_hashheap.c', named=5),
+    Group(id='C02.L0.hash_range', prop='C02', harness='hashheap.c', entry='h_hashrange', defines=['H_HASHRANGE'], level='proved',
+          bound='loop-free; all keys, exponents 1..31', backend='z3', timeout=120, tier='quick', functions=['hash_key']),
+    _op('enqueue_nogrow', 'h_enqueue', 'H_ENQUEUE', 1, 'quick', extra=['CMV_NOGROW'], more_replace=[('hashheap_grow', 'cmv_grow_unreachable')]),
+    _op('grow', 'h_grow', 'H_GROW', 1, 'quick', unwind=40, timeout=900),
+    _op('initialize', 'h_init', 'H_INIT', 1, 'quick', unwind=44),
+    _op('dequeue', 'h_dequeue', 'H_DEQUEUE', 1, 'quick'),
+    _op('remove', 'h_remove', 'H_REMOVE', 1, 'quick'),
+    _op('reprioritize', 'h_reprio', 'H_REPRIO', 1, 'quick'),
+    _op('queries', 'h_queries', 'H_QUERIES', 1, 'quick'),
+    _op('pattern_find', 'h_pattern', 'H_PATTERN', 1, 'quick', extra=['CMV_PAT_WHICH=0']),
+    _op('pattern_count', 'h_pattern', 'H_PATTERN', 1, 'quick', extra=['CMV_PAT_WHICH=1']),
+    _op('pattern_cancel', 'h_pattern', 'H_PATTERN', 1, 'thorough', extra=['CMV_PAT_WHICH=2'], timeout=1200),
+    _op('clear', 'h_clear', 'H_CLEAR', 1, 'quick', unwind=44),
+    _op('reset', 'h_clear', 'H_CLEAR', 1, 'thorough', extra=['CMV_RESET'], unwind=44, timeout=1200),
 ]
